@@ -198,3 +198,34 @@ func VerifTotalTwin(n int) {
 		_ = out[n] // out of range
 	}
 }
+
+// VerifNumberShape: Number(I "." F suffix, prec<=0) with I of i symbolic digits, F of f symbolic digits (i = n/10,
+// f = n%10) and the exponent suffix from the list: the print-form transitions (integer / decimal / exponent form,
+// digits moved across the dot in both directions) for mantissas longer than the all-lexeme harnesses reach.
+func VerifNumberShape(n int) {
+	ni, nf := n/10, n%10
+	d := vBytes("d", ni+nf)
+	for _, c := range d {
+		vAssume('0' <= c && c <= '9')
+	}
+	sfx := verifExpSuffixes[vChoice("sfx", len(verifExpSuffixes))]
+	total := ni + 1 + nf + len(sfx)
+	buf := make([]byte, 0, total+3)
+	buf = append(buf, d[:ni]...)
+	buf = append(buf, '.')
+	buf = append(buf, d[ni:]...)
+	buf = append(buf, sfx...)
+	buf = append(buf, 0xA1, 0xA2, 0xA3)
+	in := buf[:total]
+	prec := vInt("prec", -1, 0)
+	orig := append([]byte(nil), in...)
+	out := Number(in, prec)
+	vReach("after-call")
+	vOutput("out", out)
+	vAssert(len(out) <= total, "never longer")
+	vAssert(buf[total] == 0xA1 && buf[total+1] == 0xA2 && buf[total+2] == 0xA3, "guard bytes untouched")
+	vAssert(vWithin(out, in), "result inside the given slice")
+	vAssert(refIsNumber(out, true), "output grammar")
+	vAssert(refSame(refParse(orig), refParse(out)), "same value")
+	vReach("end")
+}
